@@ -35,6 +35,7 @@ type Action struct {
 	Nm    []int            `json:"nm,omitempty"`
 	Val   map[string]any   `json:"val,omitempty"`
 	Args  []map[string]any `json:"args,omitempty"`
+	Lim   int              `json:"lim,omitempty"`
 }
 
 // Line is one VJSON line: the path to the source state, the step, the required observation.
@@ -53,7 +54,13 @@ type rtm struct {
 	log       [][]any
 	armed     int  // H panics at its armed-th call of the current run (0: never)
 	delivered bool // the armed panic was raised
+	intAt     int  // H sends an interrupt function on vm.Interrupt during its intAt-th call of the current run (0: never)
+	intSent   bool
+	intRan    bool // the interpreter invoked the interrupt function
 }
+
+// interruptPayload is what the interrupt function panics with (compared by identity).
+var interruptPayload = &struct{ s string }{"api-interrupt"}
 
 var registry sync.Map // *otto.Otto -> *rtm
 
@@ -71,6 +78,15 @@ func hostH(call otto.FunctionCall) otto.Value {
 		if r.armed > 0 && len(r.log) == r.armed {
 			r.delivered = true
 			panic(PanicValue)
+		}
+		if r.intAt > 0 && len(r.log) == r.intAt && !r.intSent {
+			// the usual use of the Interrupt channel, except that the sender is the host function itself, so
+			// that the point of the run at which the function is sent is a point of the specification too
+			r.intSent = true
+			call.Otto.Interrupt <- func() {
+				r.intRan = true
+				panic(interruptPayload)
+			}
 		}
 	}
 	return call.Argument(0)
@@ -96,6 +112,7 @@ type world struct {
 }
 
 func (w *world) adopt(id int, vm *otto.Otto) {
+	vm.Interrupt = make(chan func(), 1)
 	r := &rtm{vm: vm}
 	registry.Store(vm, r)
 	w.rts[id] = r
@@ -119,6 +136,8 @@ type stats struct {
 	copies, news                                  int64
 	panicsArmed, panicsDelivered, panicsOut       int64
 	panicsCaughtByScript, stepsAfterPanicExit     int64
+	interruptsSent, interruptsDelivered           int64
+	stepsAfterInterrupt, limitsSet                int64
 	runtimeSteps, scriptsReused, sharedScriptRuns int64
 }
 
@@ -205,6 +224,24 @@ var Sources = func() []string {
 	return s
 }()
 
+// PanicInHandler lists the pool programs in which a call of H stands inside a catch handler (or a try block that
+// has only a finaliser).  otto runs such blocks under tryCatchEvaluate, which turns a host function's panic into
+// a JavaScript exception value (issue 383: a host panic is catchable); when nothing catches it, it is thrown
+// again as that exception and Run returns it as an error.  Outside such blocks the raw panic reaches catchPanic,
+// which re-panics.  The model does not distinguish the two forms (both are the observation thr = "v", v = "boom"),
+// so for these programs the driver accepts both; for all others the panic must leave Run as a panic.
+var PanicInHandler = map[int]bool{13: true}
+
+// SpinSources holds the source text of the spin pool (index p-1).
+var SpinSources = func() []string {
+	pool := SpinPool()
+	s := make([]string, len(pool))
+	for i, p := range pool {
+		s[i] = c01.RenderProgram(p)
+	}
+	return s
+}()
+
 // apply performs one action on the runtimes of w and returns what the implementation showed.
 // final: the step under comparison (counted), as opposed to a step of the path.
 func (w *world) apply(a Action, final bool) (obs c01.Obs, abnormal bool, err error) {
@@ -235,8 +272,20 @@ func (w *world) apply(a Action, final bool) (obs c01.Obs, abnormal bool, err err
 		return obs, false, fmt.Errorf("step on unknown runtime %d", a.R)
 	}
 	r.log, r.armed, r.delivered = nil, 0, false
+	r.intAt, r.intSent, r.intRan = 0, false, false
 	if a.Op == "hostpanic" {
 		r.armed = a.K
+	}
+	if a.Op == "interrupt" {
+		r.intAt = a.K
+	}
+	if a.Op == "limit" {
+		r.vm.SetStackDepthLimit(a.Lim)
+		if final {
+			atomic.AddInt64(&w.st.limitsSet, 1)
+			bump(&w.st.perOp, a.Op)
+		}
+		return c01.MakeObs(nil, otto.UndefinedValue(), nil), false, nil
 	}
 	var v otto.Value
 	var e error
@@ -300,6 +349,16 @@ func (w *world) apply(a Action, final bool) (obs c01.Obs, abnormal bool, err err
 			default:
 				e = fmt.Errorf("unknown route %q", a.Route)
 			}
+		case "interrupt":
+			if a.P < 1 || a.P > len(SpinSources) {
+				e = fmt.Errorf("no spin program %d", a.P)
+				return
+			}
+			if a.Route == "eval" {
+				v, e = r.vm.Eval(SpinSources[a.P-1])
+			} else {
+				v, e = r.vm.Run(SpinSources[a.P-1])
+			}
 		case "set":
 			gv, ge := goValue(a.Val)
 			if ge != nil {
@@ -327,6 +386,33 @@ func (w *world) apply(a Action, final bool) (obs c01.Obs, abnormal bool, err err
 	}()
 	armed, delivered := r.armed, r.delivered
 	r.armed = 0
+	if a.Op == "interrupt" {
+		r.intAt = 0
+		select { // a function that was sent and never taken must not leak into the next step
+		case <-r.vm.Interrupt:
+		default:
+		}
+		if final {
+			if r.intSent {
+				atomic.AddInt64(&w.st.interruptsSent, 1)
+			}
+			if r.intRan {
+				atomic.AddInt64(&w.st.interruptsDelivered, 1)
+			}
+		}
+		switch {
+		case r.intRan && escaped == any(interruptPayload):
+			if final {
+				atomic.AddInt64(&w.st.runtimeSteps, 1)
+				bump(&w.st.perOp, a.Op)
+			}
+			return c01.Obs{Log: r.log, Thr: []int{'i'}, V: map[string]any{"t": "undef"}}, true, nil
+		case r.intRan:
+			return obs, true, fmt.Errorf("the interrupt function ran and panicked, but Run did not unwind with its panic value: escaped=%v, error=%v", escaped, e)
+		case r.intSent && escaped == nil:
+			return obs, false, fmt.Errorf("an interrupt function sent during call %d of the host function was never invoked: the run went on to its end (value %v, error %v)", a.K, v, e)
+		}
+	}
 	if final {
 		atomic.AddInt64(&w.st.runtimeSteps, 1)
 		bump(&w.st.perOp, a.Op)
@@ -355,7 +441,7 @@ func (w *world) apply(a Action, final bool) (obs c01.Obs, abnormal bool, err err
 		return obs, true, fmt.Errorf("GO PANIC out of the API: %v", escaped)
 	}
 	o := c01.MakeObs(r.log, v, e)
-	if delivered && len(o.Thr) == 1 && o.Thr[0] == 'v' {
+	if delivered && len(o.Thr) == 1 && o.Thr[0] == 'v' && !PanicInHandler[a.P] {
 		// No program of the pool throws a primitive itself or throws a caught value again, so an
 		// uncaught primitive in a run whose host function panicked IS that panic: it has to leave
 		// Run as the Go panic it was (catchPanic re-panics what is not a script value), not be
@@ -391,7 +477,7 @@ func replay(l *Line, mode string, st *stats) (diff string, observed string, und 
 	w := &world{rts: map[int]*rtm{}, scripts: map[[2]int]*otto.Script{}, mode: mode, st: st}
 	defer w.close()
 	w.fresh(1)
-	exitedAbnormally := false
+	exitedAbnormally, interrupted := false, false
 	for i, a := range l.Path {
 		_, abn, err := w.apply(a, false)
 		if err != nil {
@@ -399,11 +485,17 @@ func replay(l *Line, mode string, st *stats) (diff string, observed string, und 
 		}
 		if abn {
 			exitedAbnormally = true
+			if a.Op == "interrupt" {
+				interrupted = true
+			}
 		}
 	}
 	o, _, err := w.apply(l.Step, true)
 	if exitedAbnormally && l.Step.Op != "new" && l.Step.Op != "copy" {
 		atomic.AddInt64(&st.stepsAfterPanicExit, 1)
+		if interrupted {
+			atomic.AddInt64(&st.stepsAfterInterrupt, 1)
+		}
 	}
 	if err != nil {
 		return err.Error(), "", false
@@ -447,6 +539,10 @@ func describe(as []Action) []string {
 			out[i] = fmt.Sprintf("vm%d.Get(%q)", a.R, unitsToString(a.Nm))
 		case "call":
 			out[i] = fmt.Sprintf("vm%d.Call(%q, nil, %s)", a.R, unitsToString(a.Nm), mustJSON(a.Args))
+		case "interrupt":
+			out[i] = fmt.Sprintf("vm%d.Run[%s](%s) with an interrupt function (panicking) sent on vm%d.Interrupt during call %d of H", a.R, a.Route, strconv.Quote(SpinSources[a.P-1]), a.R, a.K)
+		case "limit":
+			out[i] = fmt.Sprintf("vm%d.SetStackDepthLimit(%d)", a.R, a.Lim)
 		}
 	}
 	return out
@@ -460,6 +556,8 @@ type Bounds struct {
 	MaxRT, MaxLen                int
 	RouteFrom, PanicFrom, GoFrom int
 	MaxK                         int
+	IntFrom                      int   // interrupts from this step on (MaxLen: never)
+	Limits                       []int // stack depth limits configured from Go
 	ProgSet                      []int // nil: all
 	Simulate                     bool
 	Num, Depth                   int
@@ -474,22 +572,26 @@ func (b Bounds) cfg() string {
 		}
 		ps = "{" + strings.Join(s, ", ") + "}"
 	}
-	return fmt.Sprintf("CONSTANTS\n MaxRT = %d\n MaxLen = %d\n Fuel = 3000\n RouteFrom = %d\n MaxK = %d\n PanicFrom = %d\n GoFrom = %d\n ProgSet = %s\n"+
-		"INIT Init\nNEXT Next\nVIEW View\nCHECK_DEADLOCK FALSE\nINVARIANTS TotalReplies\nPROPERTIES CopyIsValue TotalRepliesStep\n",
-		b.MaxRT, b.MaxLen, b.RouteFrom, b.MaxK, b.PanicFrom, b.GoFrom, ps)
+	lims := make([]string, len(b.Limits))
+	for i, l := range b.Limits {
+		lims[i] = strconv.Itoa(l)
+	}
+	return fmt.Sprintf("CONSTANTS\n MaxRT = %d\n MaxLen = %d\n Fuel = 3000\n RouteFrom = %d\n MaxK = %d\n PanicFrom = %d\n GoFrom = %d\n ProgSet = %s\n IntFrom = %d\n Limits = {%s}\n"+
+		"INIT Init\nNEXT Next\nVIEW View\nCHECK_DEADLOCK FALSE\nINVARIANTS TotalReplies RestAfterEveryAction\nPROPERTIES CopyIsValue TotalRepliesStep InterruptDelivered LimitIsPerRuntime\n",
+		b.MaxRT, b.MaxLen, b.RouteFrom, b.MaxK, b.PanicFrom, b.GoFrom, ps, b.IntFrom, strings.Join(lims, ", "))
 }
 
 // QuickBounds / ThoroughBounds: fitted to measured counts (design.d/API.md).
 func QuickBounds() []Bounds {
-	return []Bounds{{Name: "quick-exhaustive", MaxRT: 3, MaxLen: 3, RouteFrom: 1, PanicFrom: 1, GoFrom: 1, MaxK: 3}}
+	return []Bounds{{Name: "quick-exhaustive", MaxRT: 3, MaxLen: 3, RouteFrom: 1, PanicFrom: 1, GoFrom: 1, MaxK: 3, IntFrom: 0, Limits: []int{0, 4}}}
 }
 
 func ThoroughBounds() []Bounds {
 	return []Bounds{
-		{Name: "thorough-exhaustive", MaxRT: 3, MaxLen: 4, RouteFrom: 2, PanicFrom: 2, GoFrom: 2, MaxK: 3},
+		{Name: "thorough-exhaustive", MaxRT: 3, MaxLen: 4, RouteFrom: 2, PanicFrom: 2, GoFrom: 2, MaxK: 3, IntFrom: 1, Limits: []int{0, 3, 4}},
 		// random behaviours of length 8 with every action enabled at every step; TLC prints ALL successors
 		// of every state a behaviour visits, so each behaviour contributes about 8 x 150 transitions
-		{Name: "thorough-simulation", MaxRT: 3, MaxLen: 8, RouteFrom: 0, PanicFrom: 0, GoFrom: 0, MaxK: 3, Simulate: true, Num: 8, Depth: 8},
+		{Name: "thorough-simulation", MaxRT: 3, MaxLen: 8, RouteFrom: 0, PanicFrom: 0, GoFrom: 0, MaxK: 3, IntFrom: 0, Limits: []int{0, 2, 3, 4, 5}, Simulate: true, Num: 8, Depth: 8},
 	}
 }
 
@@ -515,6 +617,7 @@ func Stage(c *core.Ctx, quick bool) (cov map[string]any, err error) {
 			for i, p := range []*int{&b.MaxRT, &b.MaxLen, &b.RouteFrom, &b.PanicFrom, &b.GoFrom, &b.MaxK} {
 				*p, _ = strconv.Atoi(f[i+1])
 			}
+			b.IntFrom, b.Limits = 0, []int{0, 4}
 			bounds = []Bounds{b}
 		}
 	}
@@ -667,14 +770,19 @@ func Stage(c *core.Ctx, quick bool) (cov map[string]any, err error) {
 		"host_panics_caught_by_script":      st.panicsCaughtByScript,
 		"host_panics_uncaught_out_of_run":   st.panicsOut,
 		"steps_on_runtime_after_panic_exit": st.stepsAfterPanicExit,
+		"interrupts_sent_by_host":           st.interruptsSent,
+		"interrupts_delivered":              st.interruptsDelivered,
+		"steps_on_runtime_after_interrupt":  st.stepsAfterInterrupt,
+		"stack_depth_limits_configured":     st.limitsSet,
 		"compiled_scripts_submitted_again":  st.scriptsReused,
 		"runs_of_the_process_wide_script":   st.sharedScriptRuns,
 		"tlc":                               tlcStats,
-		"model_checked":                     []string{"CopyIsValue", "TotalReplies", "TotalRepliesStep"},
+		"model_checked":                     []string{"CopyIsValue", "TotalReplies", "TotalRepliesStep", "RestAfterEveryAction", "InterruptDelivered", "LimitIsPerRuntime"},
 		"binding_self_test_rejected":        selfCorrupt && selfCopy,
 		"binding_self_test":                 selfNote,
 		"samples":                           samples,
 		"programs":                          len(Sources),
+		"spin_programs":                     len(SpinSources),
 	}
 	if mismatches == 0 && !(selfCorrupt && selfCopy) {
 		return cov, fmt.Errorf("binding self-test failed: corrupted outcome rejected=%v, copy-less driver rejected=%v", selfCorrupt, selfCopy)
